@@ -31,6 +31,13 @@ struct State {
   uint64_t serial = 0;
   uint64_t total_requests = 0;
   std::vector<void*> shift;
+  // placement policy 1: larger requests (arena blocks) are carved from the top of a private slab downwards, so that blocks
+  // allocated later lie BELOW earlier ones - code that orders objects by address sees the opposite order
+  int placement = 0;
+  uint8_t* slab = nullptr;
+  size_t slab_used = 0;
+  static constexpr size_t kSlabSize = size_t(8) << 20;
+  bool in_slab(const void* p) const { return slab && uintptr_t(p) - uintptr_t(slab) < kSlabSize; }
 };
 
 static State& st() { static State* s = new State(); return *s; }
@@ -64,12 +71,16 @@ void configure(int junk_mode, int realloc_policy, int shift_blocks, uint64_t see
 
 void arm(bool on) { st().armed = on; }
 
+void set_placement(int policy) { State& s = st(); s.placement = policy; if (policy && !s.slab) s.slab = static_cast<uint8_t*>(__real_malloc(State::kSlabSize)); }
+
 void reset_run_generation() {
   State& s = st();
   s.gen++;
   s.armed = false;
   s.junk_mode = 0;
   s.realloc_policy = 0;
+  s.placement = 0;
+  s.slab_used = 0;
   for (void* p : s.shift) __real_free(p);
   s.shift.clear();
 }
@@ -126,7 +137,13 @@ extern "C" void* __wrap_malloc(size_t n) {
     sched_point(kSchedHeap);
     if (fault_fires(kFaultMalloc)) { errno = ENOMEM; return nullptr; }
   }
-  void* p = __real_malloc(n);
+  void* p = nullptr;
+  size_t rounded = (n + 15) & ~size_t(15);
+  if (s.armed && g.in_run && s.placement == 1 && s.slab && n >= 1024 && n <= (size_t(256) << 10) && s.slab_used + rounded <= heap::State::kSlabSize) {
+    s.slab_used += rounded;
+    p = s.slab + heap::State::kSlabSize - s.slab_used;
+  }
+  else p = __real_malloc(n);
   if (p) {
     heap::track(p, n);
     if (s.armed) heap::junk_fill(p, n);
@@ -148,8 +165,10 @@ extern "C" void __wrap_free(void* p) {
 #if !defined(SIM_FLAVOUR_ASAN) && !defined(SIM_FLAVOUR_DBG)
   if (s.armed) memset(p, 0xDD, it->second.size);
 #endif
+  bool slab_block = s.in_slab(p);
+  if (slab_block) memset(p, 0xDD, it->second.size);
   s.blocks.erase(it);
-  __real_free(p);
+  if (!slab_block) __real_free(p);
 }
 
 extern "C" void* __wrap_realloc(void* p, size_t n) {
@@ -168,7 +187,15 @@ extern "C" void* __wrap_realloc(void* p, size_t n) {
   }
   size_t old = it->second.size;
   void* q;
-  if (s.armed && s.realloc_policy == 1 && n != 0) {
+  if (s.in_slab(p)) {
+    // a slab block is never resized in place: move it to the general heap
+    if (n == 0) { s.blocks.erase(it); return nullptr; }
+    q = __real_malloc(n);
+    if (!q) return nullptr;
+    memcpy(q, p, old < n ? old : n);
+    memset(p, 0xDD, old);
+  }
+  else if (s.armed && s.realloc_policy == 1 && n != 0) {
     q = __real_malloc(n);
     if (!q) return nullptr;
     memcpy(q, p, old < n ? old : n);
